@@ -245,7 +245,7 @@ def main():
         if len(samples) < 4 and r['stats']['paths'] > 1:
             samples.append({'source': r['text'], 'stats': r['stats']})
         for msg, w in r['viol']:
-            ind = pp.unescape_z3(str(w.get('indent', '""')).strip('"'))
+            ind = pp.z3_literal(w.get('indent', '""'))
             itext = ppcheck.witness_text(r['text'], w)
             key = 'C20: %s' % re.sub(r"line '.*?' \(depth \d+\)", 'a line', msg)
             pending.setdefault(key + ' | ' + r['text'][:40], (key, {'property': 'C20', 'input': {'text': itext, 'indent': ind, 'structure': r['text'], 'law': msg}}))
